@@ -34,7 +34,7 @@ use crate::util;
 
 //------------ Environment ---------------------------------------------------
 
-struct Env { config: Config, engine: &'static Engine }
+pub struct Env { pub config: Config, pub engine: &'static Engine }
 
 static ENV_SEQ: AtomicU64 = AtomicU64::new(0);
 
@@ -52,7 +52,7 @@ fn make_env(scratch: &PathBuf) -> Env {
     Env { config, engine: Box::leak(Box::new(engine)) }
 }
 
-fn with_env<R>(scratch: &PathBuf, f: impl FnOnce(&Env) -> R) -> R {
+pub fn with_env<R>(scratch: &PathBuf, f: impl FnOnce(&Env) -> R) -> R {
     ENV.with(|e| {
         let mut e = e.borrow_mut();
         if e.is_none() { *e = Some(make_env(scratch)) }
@@ -61,7 +61,7 @@ fn with_env<R>(scratch: &PathBuf, f: impl FnOnce(&Env) -> R) -> R {
 }
 
 /// The data sets: origins only, pairwise different, different sizes.
-fn sets() -> Vec<DataSet> {
+pub fn sets() -> Vec<DataSet> {
     let o = data::origin_universe();
     let mk = |idx: &[usize]| {
         let mut ds = DataSet::default();
@@ -71,7 +71,7 @@ fn sets() -> Vec<DataSet> {
     vec![mk(&[0]), mk(&[0, 1]), mk(&[2]), mk(&[0, 1, 2])]
 }
 
-fn fmt_set(ds: &DataSet) -> BTreeSet<String> {
+pub fn fmt_set(ds: &DataSet) -> BTreeSet<String> {
     ds.origins.iter().map(|o| format!(
         "{}|{}/{}|{}", o.asn, o.prefix.addr(), o.prefix.prefix_len(), o.prefix.resolved_max_len()
     )).collect()
@@ -150,7 +150,7 @@ fn scenarios15(thorough: bool) -> Vec<Sc15> {
     res
 }
 
-fn collect_set(mut set: impl PayloadSet) -> Result<BTreeSet<String>, String> {
+pub fn collect_set(mut set: impl PayloadSet) -> Result<BTreeSet<String>, String> {
     let mut items = Vec::new();
     while let Some(p) = set.next() { items.push(data::to_owned(p)); }
     let mut ds = DataSet::default();
